@@ -469,6 +469,89 @@ fn one(a: &Args) {
     println!("{}", v);
 }
 
+/// law out=<json> seed=N n=N : end-to-end law with a real generator (every path of the sampler, including long
+/// runs of rejections): sup distance between the empirical distribution function of n samples and the target, per rate;
+/// plus threshold probes: the generator words around the first-branch threshold 1/c1 for many rates must give values
+/// in [0,1).  The driver compares the distances with the Dvoretzky-Kiefer-Wolfowitz radius.
+fn law(a: &Args) {
+    use rand::SeedableRng;
+    silence_panics();
+    let seed = a.u64_or("seed", 1);
+    let n = a.usize_or("n", 1_000_000);
+    let mut rates: Vec<f64> = vec![1e-9, 1e-6, 1e-3, 0.5, 1.0, 5.0, 10.0, 20.0, 30.0, 50.0];
+    for m in [2.0f64, 3.0, 4.0, 13.0, 16.0, 1024.0] {
+        rates.push((m / (m - 1.0)).ln());
+    }
+    use rayon::prelude::*;
+    let laws: Vec<Value> = rates
+        .par_iter()
+        .enumerate()
+        .map(|(i, lam)| {
+            let e = match make(*lam) {
+                Ok(e) => e,
+                Err(m) => return json!({"lambda": lam, "panic": m}),
+            };
+            let mut rng = rand_xoshiro::Xoshiro256PlusPlus::seed_from_u64(seed.wrapping_mul(977).wrapping_add(i as u64));
+            let mut xs: Vec<f64> = Vec::with_capacity(n);
+            let mut out_of_range = 0u64;
+            for _ in 0..n {
+                let v = e.sample(&mut rng);
+                if !in_range(v) {
+                    out_of_range += 1;
+                } else {
+                    xs.push(v);
+                }
+            }
+            xs.sort_by(|a, b| a.partial_cmp(b).unwrap());
+            let nn = xs.len() as f64;
+            let den = (-lam).exp_m1();
+            let mut d: f64 = 0.0;
+            for (k, x) in xs.iter().enumerate() {
+                let f = (-lam * x).exp_m1() / den;
+                d = d.max((f - k as f64 / nn).abs()).max(((k + 1) as f64 / nn - f).abs());
+            }
+            json!({"lambda": lam, "n": xs.len(), "ks": d, "out_of_range": out_of_range})
+        })
+        .collect();
+    // threshold probes around 1/c1 for the rates ProbMinHash3 uses (m = 2..6000) and a geometric grid
+    let mut prates: Vec<f64> = (2..6000).map(|m| (m as f64 / (m as f64 - 1.0)).ln()).collect();
+    let mut l = 1e-9;
+    while l < 60.0 {
+        prates.push(l);
+        l *= 1.013;
+    }
+    let mut bad: Vec<Value> = Vec::new();
+    let mut probes = 0u64;
+    for lam in &prates {
+        if let Ok(e) = make(*lam) {
+            let c1 = lam.exp_m1() / lam;
+            let k0 = ((1.0 / c1) * (1u64 << 52) as f64) as i64;
+            for d in -12i64..=12 {
+                let k = k0 + d;
+                if k < 0 || k >= (1i64 << 52) {
+                    continue;
+                }
+                let u = k as f64 / (1u64 << 52) as f64;
+                probes += 1;
+                match run(&e, &[u, 0.25, 0.25]) {
+                    Obs::Ret(_, v) => {
+                        if !in_range(v) && bad.len() < 20 {
+                            bad.push(json!({"lambda": lam, "u_numerator": k.to_string(), "value": v}));
+                        }
+                    }
+                    Obs::Hang => {}
+                    Obs::Panic(m) => {
+                        if bad.len() < 20 {
+                            bad.push(json!({"lambda": lam, "u_numerator": k.to_string(), "panic": m}));
+                        }
+                    }
+                }
+            }
+        }
+    }
+    write_json(&a.str("out"), &json!({"laws": laws, "probes": probes, "probe_failures": bad}));
+}
+
 fn main() {
     let argv: Vec<String> = std::env::args().collect();
     if argv.len() < 2 {
@@ -480,6 +563,7 @@ fn main() {
         "record" => record(&a),
         "quad" => quad(&a),
         "one" => one(&a),
+        "law" => law(&a),
         other => tool_error(&format!("unknown subcommand {}", other)),
     }
 }
